@@ -155,6 +155,25 @@ def check(case):
     reused = {tuple(sorted(m.items())) for m in mt.get_mappings("G1_to_G2")}
     if reused != maxm:
         fails.append(Fail("matcher_reuse", f"M1 reused after another pair: {sorted(reused)}", f"{sorted(maxm)}"))
+    # find_rc_mapping on graphs given directly (side='its'): component-wise pairing and whole-graph search, on a reused instance
+    if not wc:
+        mt = M1(node_attrs=["element"], edge_attrs=["order"])
+        mt.find_common_subgraph(G2, G1, mcs=True)
+        mt.get_mappings("G1_to_G2"), mt.get_mappings("G2_to_G1")  # fill whatever the instance may keep
+        for comp in (True, False):
+            for mcs in (True, False):
+                mt.find_rc_mapping(G1, G2, side="its", mcs=mcs, component=comp)
+                ncalls += 1
+                f = mt.get_mappings("G1_to_G2")
+                b = mt.get_mappings("G2_to_G1")
+                key = f"find_rc_mapping,component={comp},mcs={mcs}"
+                bad = [m for m in f if not valid(m, G1, G2)]
+                if bad:
+                    fails.append(Fail("invalid_mapping", f"{key}: G1_to_G2 {bad[0]}", "valid common induced subgraph mapping G1->G2", key_extra=key))
+                elif len(b) != len(f) or any({v: k for k, v in m.items()} != n for m, n in zip(f, b)):
+                    fails.append(Fail("directions_not_inverse", f"{key}: {f[:2]} vs {b[:2]}", "element-wise mutual inverses", key_extra=key))
+                elif not comp and mcs and {tuple(sorted(m.items())) for m in f} != maxm:
+                    fails.append(Fail("maximum_set", f"{key}: {sorted(tuple(sorted(m.items())) for m in f)}", f"{sorted(maxm)}", key_extra=key))
     # molecule-level mode: whole components
     mt = M1(node_attrs=["element"], edge_attrs=["order"], prune_wc=wc)
     mt.find_common_subgraph(G1, G2, mcs_mol=True)
